@@ -71,7 +71,7 @@ func genC14(r *Rng, tier string) []Case {
 	enc := func(d, rs int, payload []byte) {
 		cs = append(cs, Case{"mi_enc", []Sx{draftSym(d), Zi(int64(rs)), B(payload)}})
 		stream, dg := miEncodeRef(d, rs, payload)
-		ks := [][]int{{1}, {7}, {rs}, {2*rs + 5}, {3, 1, 64}}
+		ks := [][]int{{1}, {7}, {rs}, {2*rs + 5}, {3, 1, 64}, {3, 0, 5}, {0, 1}, {2, 0, 0, 7}}
 		k := ks[r.Intn(len(ks))]
 		if len(stream) > 3000 {
 			k = []int{rs}
@@ -154,7 +154,7 @@ func genC15(r *Rng, tier string) []Case {
 		for _, c := range cfgs {
 			payload := r.Bytes(c.n)
 			stream, dg := miEncodeRef(d, c.rs, payload)
-			sz := [][]int{{1}, {7}, {c.rs}, {2*c.rs + 5}}
+			sz := [][]int{{1}, {7}, {c.rs}, {2*c.rs + 5}, {3, 0, 5}, {1, 0}}
 			pick := func() []int { return sz[r.Intn(len(sz))] }
 			dec(d, stream, dg, 16384, pick(), "plain")
 			// every single-bit flip of the stream
